@@ -51,6 +51,7 @@ def extract_list(n: int, i: int, j: int, k: int) -> bool:
     pre: (n >= 3 or k == 0) and (n >= 2 or j == 0) and (n >= 1 or i == max(FIX_A, 0))
     post: _
     """
+    xs.path_start()
     n, i, j, k = xs.pick(n, 0, 4), xs.pick(i, 0, NPOOL), xs.pick(j, 0, NPOOL), xs.pick(k, 0, NPOOL)
     keys = _mk(n, i, j, k)
     try:
@@ -73,6 +74,7 @@ def add_extracts(na: int, ia: int, ja: int, nb: int, ib: int, jb: int) -> bool:
     pre: (na >= 2 or ja == 0) and (na >= 1 or ia == max(FIX_A, 0)) and (nb >= 2 or jb == 0) and (nb >= 1 or ib == max(FIX_B, 0))
     post: _
     """
+    xs.path_start()
     na, ia, ja, nb, ib, jb = xs.pick(na, 0, 3), xs.pick(ia, 0, NPOOL), xs.pick(ja, 0, NPOOL), xs.pick(nb, 0, 3), xs.pick(ib, 0, NPOOL), xs.pick(jb, 0, NPOOL)
     a, b = _mk(na, ia, ja, 0), _mk(nb, ib, jb, 0)
     try:
@@ -104,6 +106,7 @@ def enumerate_results(m: int, n: int, h: int, r0: int, f0: int) -> bool:
     pre: 0 <= r0 < len(RCK) and 0 <= f0 < len(FCK) and (m > 0 or r0 == 0) and (n > 0 or f0 == 0)
     post: _
     """
+    xs.path_start()
     m, n, h, r0, f0 = xs.pick(m, 0, 4), xs.pick(n, 0, 4), xs.pick(h, 0, 2), xs.pick(r0, 0, len(RCK)), xs.pick(f0, 0, len(FCK))
     rcs = [RCK[(r0 + t) % len(RCK)] for t in range(m)]
     fcs = [FCK[(f0 + t) % len(FCK)] for t in range(n)]
@@ -184,6 +187,7 @@ def extract_tree(idx: int, flags: int, flags_before: int) -> bool:
     pre: T_LO <= idx < T_HI and 0 <= flags < 4 and 0 <= flags_before < 5
     post: _
     """
+    xs.path_start()
     idx, flags, fb = xs.pick(idx, T_LO, T_HI), xs.pick(flags, 0, 4), xs.pick(flags_before, 0, 5)
     with xs.nt():
         text = tree_cases()[idx]
